@@ -19,6 +19,13 @@ pub fn common_prefix_char_size(left: &str, right: &str) -> u32 {
     let mut right_chars = right.chars();
     let mut was_escape = false;
     let mut group_level = 0;
+    // depth of the character class we are in (`[a[bc]]` nests), and how close we are to its beginning, where a
+    // `]` is a literal: 2 = `[` just read, 1 = `[^` just read, 0 = anywhere else
+    let mut class_level = 0;
+    let mut class_start = 0;
+    // an unescaped `-` after an item of the class has just been read: what follows is the end of a range, a literal
+    // whatever it is (`[!-[]` is the range from `!` to `[`), or the second `-` of the `--` operator, or the closing `]`
+    let mut class_range = false;
     let mut i = 0;
 
     loop {
@@ -29,7 +36,34 @@ pub fn common_prefix_char_size(left: &str, right: &str) -> u32 {
             return prefix_length;
         }
 
-        if left_char == '(' && !was_escape {
+        if class_level > 0 {
+            // inside a character class a parenthesis is a literal: `[^)]+` does not close the group
+            if !was_escape {
+                if class_range {
+                    class_range = false;
+
+                    if left_char == ']' {
+                        class_level -= 1;
+                    }
+                } else if left_char == '[' {
+                    class_level += 1;
+                    class_start = 2;
+                } else if left_char == ']' && class_start == 0 {
+                    class_level -= 1;
+                } else if left_char == '^' && class_start == 2 {
+                    class_start = 1;
+                } else {
+                    class_range = left_char == '-' && class_start == 0;
+                    class_start = 0;
+                }
+            } else {
+                class_start = 0;
+                class_range = false;
+            }
+        } else if left_char == '[' && !was_escape {
+            class_level = 1;
+            class_start = 2;
+        } else if left_char == '(' && !was_escape {
             group_level += 1;
         } else if left_char == ')' && !was_escape {
             group_level -= 1;
@@ -43,7 +77,7 @@ pub fn common_prefix_char_size(left: &str, right: &str) -> u32 {
 
         i += 1;
 
-        if group_level == 0 && !was_escape {
+        if group_level == 0 && class_level == 0 && !was_escape {
             prefix_length = i;
         }
     }
